@@ -149,6 +149,8 @@ package elasticsearch
 //@     ensures data != nil && len(data.begin) == eventsCount && eventsCount >= 0
 //@     ensures nondecreasing(data.begin) && allrange(data.begin, 0, len(data.outBuf) + 1)
 //@   callee send(d)
+//@     requires !p.config.SplitBatch
+//@     requires sameblock(d, data.outBuf) && off(d) == off(data.outBuf) && len(d) == len(data.outBuf)
 //@     pure
 //@   callee WithLabelValues(l)
 //@     pure
@@ -156,3 +158,131 @@ package elasticsearch
 //@     pure
 //@   callee Error(m, f)
 //@     pure
+
+// ---------------------------------------------------------------------------
+// send (C09 / C19, the unsplit path): exactly one request; it is a POST of the whole
+// batch buffer (the very bytes out built: same block, same offset, same length - nothing
+// cut, nothing copied from elsewhere) as application/x-ndjson with the configured
+// timeout; no response handler is passed when process_response is off (the converse -
+// reportESErrors IS passed when it is on - cannot be stated: govc gives a bound-method
+// value an unconstrained identity, so "not nil" is not provable for it; tool limit, see
+// NOTES.md); and what DoTimeout answers - status and error - is what send returns: a failed
+// request cannot turn into a success here, nor a success into a failure.
+
+//@ func (*Plugin).send
+//@   pure
+//@   ghost nsend int = 0
+//@   ghost gcode int = 0
+//@   ghost gerr bool = false
+//@   ghost getag int = 0
+//@   ghost gepay int = 0
+//@   ensures nsend == 1
+//@   ensures result0 == gcode
+//@   ensures isnil(result1) == !gerr
+//@   ensures !isnil(result1) ==> uf_itag(result1) == getag && uf_ipay(result1) == gepay
+//@   callee DoTimeout(method, ct, body, timeout, fn) (code, err)
+//@     requires nsend == 0
+//@     requires method == "POST" && ct == "application/x-ndjson"
+//@     requires sameblock(body, data) && off(body) == off(data) && len(body) == len(data)
+//@     requires timeout == p.config.ConnectionTimeout_
+//@     requires !p.config.ProcessResponse ==> isnil(fn)
+//@     pure
+//@     set nsend := nsend + 1
+//@     set gcode := code
+//@     set gerr := !isnil(err)
+//@     set getag := uf_itag(err)
+//@     set gepay := uf_ipay(err)
+
+// reportESErrors (C09 / C19: the handler DoTimeout runs on a 2xx bulk response; its
+// result becomes send's and out's result).  insane-json trees are outside govc's memory
+// model, so the contract speaks about the calls: the response bytes handed in are the
+// ones decoded, once; the tree is released exactly once on every path (also after a
+// failed decode); the verdict "this bulk had failures" is the boolean read from the
+// top-level field "errors" of that tree (gerrors), the item list is read from "items".
+//   * an undecodable response is an error (so that it is retried),
+//   * a response that reports no failure is a success,
+//   * every item carrying an "error" object is counted once and the counter metric gets
+//     exactly that count (and is not touched when it is zero),
+//   * LAST, EXPECTED TO FAIL: success is reported only for a response without failures.
+//     The property (C09: "a failed send is retried ... / handed to the dead queue") has
+//     no clause under which events Elasticsearch refused are committed as delivered, but
+//     reportESErrors logs item-level failures and returns nil for all of them - also
+//     for retryable ones (429 es_rejected_execution_exception, 503) - see NOTES.md
+//     (reproduced: 200 {"errors":true, items[0].status 429} -> 1 request, no retry,
+//     dead queue 0, committed 1).
+
+//@ func (*Plugin).reportESErrors
+//@   ghost ndec int = 0
+//@   ghost nrel int = 0
+//@   ghost rref int = 0
+//@   ghost gdecerr bool = false
+//@   ghost gkey seq = ""
+//@   ghost nflag int = 0
+//@   ghost gerrors bool = false
+//@   ghost nitems int = 0
+//@   ghost nadd int = 0
+//@   ghost nerrnodes int = 0
+//@   ensures ndec == 1 && nrel == 1
+//@   ensures gdecerr ==> !isnil(result)
+//@   ensures !gdecerr ==> nflag == 1
+//@   ensures !gdecerr && !gerrors ==> isnil(result) && nadd == 0 && nitems == 0
+//@   ensures nadd <= 1 && (nadd == 1 ==> nerrnodes > 0)
+//@   ensures !gdecerr && gerrors && nitems == 1 && nerrnodes > 0 ==> nadd == 1
+//@   ensures isnil(result) ==> !gdecerr && !gerrors
+//@   loop 1 invariant 0 <= indexingErrors && indexingErrors == nerrnodes
+//@   loop 1 invariant ndec == 1 && nrel == 0 && !gdecerr && nflag == 1 && gerrors && nitems == 1 && nadd == 0
+//@   callee DecodeBytes(d) (r, e)
+//@     requires ndec == 0 && sameblock(d, data) && off(d) == off(data) && len(d) == len(data)
+//@     pure
+//@     set ndec := ndec + 1
+//@     set gdecerr := !isnil(e)
+//@     set rref := ref(r)
+//@   callee Release(r)
+//@     requires ndec == 1 && nrel == 0 && ref(r) == rref
+//@     pure
+//@     set nrel := nrel + 1
+//@   callee Dig(path) (n)
+//@     requires len(path) == 1
+//@     pure
+//@     set gkey := path[0]
+//@     set nerrnodes := nerrnodes + ite(path[0] == "error" && n != nil, 1, 0)
+//@   callee AsBool() (b)
+//@     requires nflag == 0 && gkey == "errors"
+//@     pure
+//@     set nflag := nflag + 1
+//@     set gerrors := b
+//@   callee AsArray() (a)
+//@     requires nitems == 0 && gkey == "items"
+//@     pure
+//@     set nitems := nitems + 1
+//@   callee AsInt() (v)
+//@     requires gkey == "status"
+//@     pure
+//@   callee EncodeToString() (s)
+//@     pure
+//@   callee Counter.Add(v)
+//@     requires nadd == 0 && indexingErrors != 0 && indexingErrors == nerrnodes
+//@     pure
+//@     set nadd := nadd + 1
+
+// prepareEndpoints: one URL per configured endpoint, in order; each is the endpoint
+// without ONE trailing slash, followed by /_bulk?_source=false and, when an ingest
+// pipeline is configured, by &pipeline=<name>; nothing else.  Lengths are stated for the
+// whole result (quantified); the bytes are stated for the element at the moment it is
+// appended (a source anchor: quantifying seqeq over the result's elements did not
+// discharge - nested quantifiers over concatenations).  An endpoint must not be
+// empty (e[len(e)-1] would panic): precondition, a configuration obligation (the field is
+// required, but an empty list element is not rejected by config validation).
+
+//@ func prepareEndpoints
+//@   pure
+//@   requires forall k :: 0 <= k && k < len(endpoints) ==> len(endpoints[k]) > 0
+//@   ensures len(result) == len(endpoints)
+//@   ensures forall k :: 0 <= k && k < len(result) ==> len(result[k]) == len(endpoints[k]) - ite(endpoints[k][len(endpoints[k]) - 1] == '/', 1, 0) + 20 + ite(len(ingestPipeline) > 0, 10 + len(ingestPipeline), 0)
+//@   loop 1 invariant -1 <= rangeindex && rangeindex < len(endpoints) && len(res) == rangeindex + 1 && cap(res) == len(endpoints) && fresh(res)
+//@   loop 1 invariant forall k :: 0 <= k && k < len(endpoints) ==> len(endpoints[k]) > 0
+//@   loop 1 invariant forall k :: 0 <= k && k < len(res) ==> len(res[k]) == len(endpoints[k]) - ite(endpoints[k][len(endpoints[k]) - 1] == '/', 1, 0) + 20 + ite(len(ingestPipeline) > 0, 10 + len(ingestPipeline), 0)
+//@   assert at "res = append(res, e)" len(e) == len(endpoints[rangeindex]) - ite(endpoints[rangeindex][len(endpoints[rangeindex]) - 1] == '/', 1, 0) + 20 + ite(len(ingestPipeline) > 0, 10 + len(ingestPipeline), 0)
+//@   assert at "res = append(res, e)" seqeq(e[:len(endpoints[rangeindex]) - ite(endpoints[rangeindex][len(endpoints[rangeindex]) - 1] == '/', 1, 0)], endpoints[rangeindex], 0)
+//@   assert at "res = append(res, e)" seqeq(e[len(endpoints[rangeindex]) - ite(endpoints[rangeindex][len(endpoints[rangeindex]) - 1] == '/', 1, 0):len(endpoints[rangeindex]) - ite(endpoints[rangeindex][len(endpoints[rangeindex]) - 1] == '/', 1, 0) + 20], "/_bulk?_source=false", 0)
+//@   assert at "res = append(res, e)" len(ingestPipeline) > 0 ==> seqeq(e[len(endpoints[rangeindex]) - ite(endpoints[rangeindex][len(endpoints[rangeindex]) - 1] == '/', 1, 0) + 20:len(endpoints[rangeindex]) - ite(endpoints[rangeindex][len(endpoints[rangeindex]) - 1] == '/', 1, 0) + 30], "&pipeline=", 0) && seqeq(e[len(endpoints[rangeindex]) - ite(endpoints[rangeindex][len(endpoints[rangeindex]) - 1] == '/', 1, 0) + 30:], ingestPipeline, 0)
